@@ -181,6 +181,17 @@ Proof.
     eapply perm_trans; [exact Pm|]. apply Permutation_sym. assumption.
 Qed.
 
+Lemma pop_is_accepted_pick q h :
+  NoDup (km_keys q) -> Permutation q (map h_data h) -> heap_inv h -> h <> [] ->
+  exists x hp, heap_Pop h = Ok (x, hp) /\ h_idx x = -1 /\
+    pop_pick (h_key x) q = Some ((h_act x, h_inact x), km_remove (h_key x) q) /\
+    Permutation (km_remove (h_key x) q) (map h_data hp) /\ heap_inv hp.
+Proof.
+  intros ND Pm HI NE.
+  destruct (pop_refines q h ND Pm HI NE) as (x & hp & E & Ix & _ & Hq & Hmin & Pm' & HI' & _).
+  exists x, hp. unfold pop_pick. rewrite Hq, Hmin. auto.
+Qed.
+
 Lemma push_refines q' hp x : Permutation q' (map h_data hp) -> heap_inv hp ->
   exists hp', heap_Push hp x = Ok hp' /\
     Permutation (pq_push (h_key x) (h_act x, h_inact x) q') (map h_data hp') /\ heap_inv hp'.
